@@ -8,6 +8,7 @@ reported to the task whose buffer it was written into.  The read waiter may have
 def register(R):
     _register(R)
     register_receive(R)
+    register_callbacks(R)
 
 
 def _register(R):
@@ -140,5 +141,74 @@ def register_receive(R):
         env={"ghost_capture": {"_wait_for_data": {"P1": PEND}},
              # listed assumption: waiting for data fails with connection errors, RuntimeError (concurrent use) or cancellation - never ValueError
              "callee_raise_filter": {"StreamReaderBufferedProtocol._wait_for_data": "not typeof(exc, 'ValueError')"}},
+        tags="C03 C10",
+    )
+
+
+def register_callbacks(R):
+    """The remaining event-loop callbacks of the read side: get_buffer() never exposes a region that holds bytes not yet
+    delivered; eof_received() / connection_lost() wake the reader, take the caller's buffer back and keep / account for the
+    pending bytes."""
+    R.external("traceback.clear_frames", "stubs.async_backend.same_exception")
+    R.module("easynetwork/lowlevel/api_async/backend/_asyncio/stream/socket.py")
+    W = "self.__read_waiter"
+    n = "self.__buffer_nbytes_written"
+    R.contract(
+        "StreamReaderBufferedProtocol.get_buffer", self_shape="StreamReaderBufferedProtocolR",
+        params={"sizehint": "int"}, result="view",
+        ensures=[
+            ("a-registered-caller-buffer-is-handed-out-as-is",
+             "implies(not isnone(self.__external_buffer_view), view_lo(result) == view_lo(self.__external_buffer_view) and view_hi(result) == view_hi(self.__external_buffer_view) "
+             "and base(result) == base(self.__external_buffer_view))", "C10"),
+            ("otherwise-exactly-the-unused-tail-of-the-internal-buffer: the event loop can never overwrite bytes that are still pending",
+             f"implies(isnone(self.__external_buffer_view), not isnone(self.__buffer) and view_lo(result) == {n} and view_hi(result) == len(self.__buffer) and base(result) == self.__buffer[:])", "C10 C03"),
+        ],
+        raises={"BufferError": [("only-after-the-connection-was-lost-and-nothing-is-exposed", "isnone(self.__buffer) and isnone(self.__external_buffer_view)", "C10")]},
+        tags="C10 C03",
+    )
+    R.shape(
+        "StreamReaderBufferedProtocolE", cls="StreamReaderBufferedProtocol",
+        fields={"__buffer": "opt[bytearray]", "__buffer_view": "viewof:__buffer", "__buffer_nbytes_written": "int",
+                "__external_buffer_view": "opt[view]", "__read_waiter": "opt[FutureModel]", "__connection_lost": "bool", "__eof_reached": "bool",
+                "__over_ssl": "bool"},
+        invariant=[("written-count-in-range", "0 <= self.__buffer_nbytes_written and implies(not isnone(self.__buffer), self.__buffer_nbytes_written <= len(self.__buffer))")],
+    )
+    R.contract(
+        "StreamReaderBufferedProtocol.eof_received", self_shape="StreamReaderBufferedProtocolE", result="bool",
+        ensures=[("end-of-stream-latched", "self.__eof_reached", "C03"),
+                 ("the-caller's-buffer-is-taken-back", "isnone(self.__external_buffer_view)", "C10"),
+                 ("a-parked-reader-is-woken (with no byte count: it must look at the internal buffer / the end-of-stream flag)",
+                  f"implies(not isnone({W}) and old({W}.pending), not {W}.pending and {W}.result_set and isnone({W}.value))", "C03 C10"),
+                 ("bytes-received-before-the-end-of-stream-stay-pending", f"{n} == old({n})", "C03"),
+                 ("half-open-kept-unless-over-ssl", "result == (not self.__over_ssl)", "C03")],
+        modifies=["self.__eof_reached", "self.__external_buffer_view", f"{W}.pending", f"{W}.result_set", f"{W}.value"],
+        tags="C03 C10",
+    )
+    Wf = "self.__write_flow._WriteFlowControl__drain_waiters"
+    R.shape(
+        "StreamReaderBufferedProtocolL", cls="StreamReaderBufferedProtocol",
+        fields={"__buffer": "opt[bytearray]", "__buffer_view": "viewof:__buffer", "__buffer_nbytes_written": "int",
+                "__external_buffer_view": "opt[view]", "__read_waiter": "opt[FutureModel]", "__connection_lost": "bool", "__eof_reached": "bool",
+                "__read_paused": "bool", "__transport": "opt[AsyncioTransportModel]", "__loop": "EventLoopModel", "__closed": "FutureModel",
+                "__write_flow": "WriteFlowControl", "__connection_lost_exception": "opt[exc:OSError]", "__connection_lost_exception_tb": "opt[obj]"},
+        invariant=[("written-count-in-range", "0 <= self.__buffer_nbytes_written and implies(not isnone(self.__buffer), self.__buffer_nbytes_written <= len(self.__buffer))")],
+    )
+    first = "not old(self.__connection_lost)"
+    R.contract(
+        "StreamReaderBufferedProtocol.connection_lost", self_shape="StreamReaderBufferedProtocolL",
+        params={"exc": "opt[exc:OSError]"},
+        ensures=[("lost-latched", "self.__connection_lost", "C03 C10"),
+                 ("bytes-still-pending-when-the-connection-goes-away-are-never-dropped-silently: the loss is then reported as an error, not as a clean end-of-stream",
+                  f"implies({first} and old({n}) > 0, not isnone(self.__connection_lost_exception) and self.__eof_reached == old(self.__eof_reached))", "C03"),
+                 ("a-clean-loss-with-nothing-pending-is-an-end-of-stream", f"implies({first} and isnone(exc) and old({n}) == 0, self.__eof_reached and isnone(self.__connection_lost_exception))", "C03"),
+                 ("the-reported-cause-is-kept", f"implies({first} and not isnone(exc), not isnone(self.__connection_lost_exception))", "C03"),
+                 ("a-parked-reader-is-woken", f"implies({first} and not isnone({W}) and old({W}.pending), not {W}.pending)", "C03 C10"),
+                 ("second-call-is-a-no-op", f"implies(not ({first}), {n} == old({n}) and self.__eof_reached == old(self.__eof_reached))", "C03")],
+        modifies=["self.__connection_lost", "self.__read_paused", "self.__connection_lost_exception", "self.__connection_lost_exception_tb", "self.__eof_reached",
+                  n, "self.__buffer", "self.__buffer_view", "self.__transport", "self.__closed.pending", "self.__closed.result_set", "self.__closed.value",
+                  f"{W}.pending", f"{W}.result_set", f"{W}.exception_set", f"{W}.value",
+                  "self.__write_flow._WriteFlowControl__write_paused", "self.__write_flow._WriteFlowControl__connection_lost",
+                  "self.__write_flow._WriteFlowControl__connection_lost_exception", "self.__write_flow._WriteFlowControl__connection_lost_exception_tb",
+                  f"{Wf}.n", f"{Wf}.pending", f"{Wf}.rest"],
         tags="C03 C10",
     )
